@@ -40,7 +40,7 @@ async def execute(net, hyg, plan):
     tree = {"/d": DIR, "/d/a": b"aaa", "/d/b": b"bb", "/f.bin": content, "/small.txt": b"0123456789", "/old.bin": OLD}
     for i in range(plan.get("dir_entries", 0)):
         tree[f"/d/e{i:03d}"] = b"x" * i
-    w = W.World(net, tree=tree, block_size=bs, **(plan.get("server_kwargs") or {}))
+    w = W.World(net, tree=tree, block_size=bs, backend=plan.get("backend", "memory"), **(plan.get("server_kwargs") or {}))
     await w.start()
     try:
         bd = plan.get("backend_delay")
@@ -245,11 +245,16 @@ async def execute(net, hyg, plan):
                     viol.append({"key": f"followup-failed:{phase}", "msg": f"{pos}: PWD after ABOR answered {r}"})
                 else:
                     pas2 = "PASV" if fu == "pasv+list" else "EPSV"
-                    r = await p.cmd(pas2, wait=5)
-                    ok = r not in (None, "EOF") and r.code in ("227", "229")
+                    if fu == "reuse+retr":
+                        # the passive listener of the aborted transfer serves the next one (no new PASV/EPSV)
+                        ok, port2 = True, port
+                    else:
+                        r = await p.cmd(pas2, wait=5)
+                        ok = r not in (None, "EOF") and r.code in ("227", "229")
                     got = None
                     if ok:
-                        port2 = p.parse_pasv(r)[1] if pas2 == "PASV" else p.parse_epsv(r)
+                        if fu != "reuse+retr":
+                            port2 = p.parse_pasv(r)[1] if pas2 == "PASV" else p.parse_epsv(r)
                         try:
                             dr, dw = await p.open_data(port2)
                             cmd2 = "LIST /d" if fu == "pasv+list" else "RETR /small.txt"
@@ -421,7 +426,7 @@ def gen_cases(tier, seed):
     sizes_t = {"RETR": [0, 1, bs - 1, bs, bs + 1, 2 * bs, 3 * bs + 17, 70000, 200000], "STOR": [0, 1, bs - 1, bs, bs + 1, 3 * bs + 17, 70000],
                "APPE": [0, bs + 1, 3 * bs], "LIST": [0], "MLSD": [0]}
     sizes = sizes_q if tier == "quick" else sizes_t
-    fus = ["pwd+retr", "pasv+list", "quit"]
+    fus = ["pwd+retr", "pasv+list", "quit", "reuse+retr"]
     i = 0
     for verb in ("RETR", "STOR", "APPE", "LIST", "MLSD"):
         for size in sizes[verb]:
@@ -430,13 +435,13 @@ def gen_cases(tier, seed):
                     continue
                 i += 1
                 plan = {"verb": verb, "size": size, "connect": mode, "passive": "EPSV" if i % 2 else "PASV",
-                        "followup": fus[i % 3], "seed": seed, "dir_entries": 40 if verb in ("LIST", "MLSD") else 0}
+                        "followup": fus[i % 4], "seed": seed, "dir_entries": 40 if verb in ("LIST", "MLSD") else 0}
                 cases.append({"kind": "enum", "plan": plan})
                 if tier == "thorough":
                     for mss, lat, bdel in ((64, 0.0005, None), (536, 0.003, [0, 0.0004, 0.002])):
                         if size > 30000 and mss == 64:
                             continue
-                        p2 = dict(plan, mss=mss, latency=lat, followup=fus[(i + 1) % 3], seed=seed + 1)
+                        p2 = dict(plan, mss=mss, latency=lat, followup=fus[(i + 1) % 4], seed=seed + 1)
                         if bdel:
                             p2["backend_delay"] = bdel
                         cases.append({"kind": "enum", "plan": p2, "stride": 2 if mss == 64 else 1})
@@ -450,6 +455,11 @@ def gen_cases(tier, seed):
     for verb in ("RETR", "STOR", "LIST"):
         cases.append({"kind": "enum", "plan": {"verb": verb, "size": 2 * bs + 5, "connect": "before", "seed": seed,
                                                "backend_delay": [0.0015], "dir_entries": 8 if verb == "LIST" else 0}})
+    # executor-based back end: the ABOR finds the worker inside a file operation that runs in a thread
+    for verb, size in (("RETR", 3 * bs + 17), ("STOR", 3 * bs + 17)) if tier == "quick" else (("RETR", 3 * bs + 17), ("STOR", 3 * bs + 17), ("RETR", 70000), ("APPE", bs + 1), ("LIST", 0)):
+        cases.append({"kind": "enum", "stride": 3 if tier == "quick" else 1,
+                      "plan": {"verb": verb, "size": size, "connect": "before", "seed": seed, "backend": "async", "followup": "reuse+retr",
+                               "dir_entries": 8 if verb == "LIST" else 0}})
     # stalled download: the peer stops reading a file larger than all buffers, then aborts
     for fu in (["pwd+retr"] if tier == "quick" else fus):
         cases.append({"kind": "enum", "stride": 9 if tier == "quick" else 3,
